@@ -9,7 +9,9 @@ import (
 	"reflect"
 	"sort"
 	"strings"
+	"sync/atomic"
 	"syscall"
+	"time"
 
 	"github.com/200sc/bebop"
 
@@ -33,6 +35,7 @@ type cliRun struct {
 	Ops      []cliOp
 	After    map[string][]byte // workspace content after the run
 	Fired    bool
+	Hung     bool // still running after cliTimeout; killed by the harness
 }
 
 type cliOp struct {
@@ -43,6 +46,8 @@ type cliOp struct {
 }
 
 func cliDir() string { return os.Getenv("VERIF_CLI_DIR") }
+
+const cliTimeout = 20 * time.Second
 
 // runCLI materialises the workspace, runs the tool once and collects everything.
 func runCLI(sc *Scenario, plan string) (*cliRun, error) {
@@ -71,8 +76,15 @@ func runCLI(sc *Scenario, plan string) (*cliRun, error) {
 	cmd.Env = []string{"VERIF_OPLOG=" + oplog, "VERIF_FAULTPLAN=" + plan, "HOME=" + dir, "TMPDIR=" + dir}
 	var so, se bytes.Buffer
 	cmd.Stdout, cmd.Stderr = &so, &se
-	err = cmd.Run()
-	res := &cliRun{Stdout: so.String(), Stderr: se.String(), After: map[string][]byte{}}
+	// the tools finish in milliseconds; one that is still running after cliTimeout is stuck
+	var hung atomic.Bool
+	if err := cmd.Start(); err != nil {
+		return nil, fmt.Errorf("cannot run %s: %w", sc.Extra["tool"], err)
+	}
+	timer := time.AfterFunc(cliTimeout, func() { hung.Store(true); cmd.Process.Kill() })
+	err = cmd.Wait()
+	timer.Stop()
+	res := &cliRun{Stdout: so.String(), Stderr: se.String(), After: map[string][]byte{}, Hung: hung.Load()}
 	if err != nil {
 		ee, ok := err.(*exec.ExitError)
 		if !ok {
@@ -181,6 +193,18 @@ func runC19(c *Ctx) *Replay {
 			eol = "\r\n"
 		}
 		valid += "const string kSpansLines = \"first" + eol + "second" + eol + "\";" + eol
+	}
+	if r.Chance(1, 4) {
+		// no newline at the end of the file; half of the time the last line is a complete
+		// definition of its own
+		eol := "\n"
+		if crlf {
+			eol = "\r\n"
+		}
+		valid = strings.TrimRight(valid, "\r\n")
+		if r.Bool() {
+			valid += eol + []string{"struct LastLine { int32 a; }", "const int32 kLastLine = 7;", "enum LastEnum { A = 1; }", "// a closing remark"}[r.Intn(4)]
+		}
 	}
 	sc := Scenario{Kind: "cli", Prog: p.ID, Files: map[string]string{}, Extra: map[string]string{}}
 	class := []string{"valid", "valid", "syntax-error", "validation-error", "import", "import-missing", "import-paths"}[r.Intn(7)]
@@ -446,6 +470,13 @@ func execCLI(n *Node, sc *Scenario) *Violation {
 	}
 	sc.Extra["exit"] = fmt.Sprint(run.Exit)
 	facts := map[string]string{"tool": tool, "class": class, "fault": faultKind, "role": role}
+	if run.Hung {
+		// the tool neither failed nor succeeded: it never came back (the property's "fails for
+		// any reason ... exit status is non-zero" presupposes that it ends)
+		return &Violation{Class: "hang", Signature: fmt.Sprintf("hang|%s|%s|%s|%s", tool, class, faultKind, role),
+			Detail: fmt.Sprintf("%s %s was still running %v after start (fault %s at %s) and was killed by the harness", tool, strings.Join(sc.Args, " "), cliTimeout, faultKind, role),
+			Facts:  facts}
+	}
 	failed := run.Exit != 0
 	crashRun := run.Signaled
 	// (1) a failed or crashed run leaves every pre-existing file as it was
